@@ -1112,6 +1112,57 @@ class Body:
                 out.append((s, vals, self.switch_term(s, expand_vars)))
         return out
 
+    def origin(self, t, depth=0):
+        """the place a value was copied from: follows single-definition `let x = y` / `let x = &y.f` chains (and the
+        parameter bindings of inlined helpers) down to a parameter, a captured variable, a loop item or a computed value"""
+        t = strip(t)
+        while depth < 12:
+            depth += 1
+            if t[0] == "var" and len(t) > 2:
+                ds = self.var_defs(t)
+                if len(ds) != 1:
+                    return t
+                d = ds[0]
+                u = d
+                while u[0] in ("deref", "ref", "cast") or (u[0] == "call" and u[2] and ALIAS_CALL.search(u[1])):
+                    u = u[2][0] if u[0] == "call" else u[1]
+                if u[0] in ("var", "param", "upvar") and u[:3] != t[:3] and not _is_loop_item(d):
+                    t = u
+                    continue
+                if u[0] == "field":
+                    return ("field", self.origin(u[1], depth), u[2])
+                return t
+            if t[0] == "field":
+                return ("field", self.origin(t[1], depth), t[2])
+            return t
+        return t
+
+    def guard_atoms(self, b, expand_vars=False):
+        """[(atom, truth)] that hold on every path to b, including what a named boolean implies: after
+        `let same = a.eq(x) && b.eq(y); if same {..}` the guard `same == true` implies both comparisons
+        (the `false` constant assigned on the short-circuit edge is excluded by the guard itself)"""
+        out = []
+        for s_, vals, term in self.guards(b, expand_vars):
+            atom, truth = cond_atoms(term, vals)
+            out.append((atom, truth))
+            work = [(atom, truth, 0)]
+            while work:
+                a, tr, dp = work.pop()
+                a = strip_refs(a)
+                if a[0] != "var" or tr is None or dp > 4 or len(a) < 3 or self.locals[a[2]] != "bool":
+                    continue
+                for d in self.var_defs(a):
+                    u = strip_refs(d)
+                    if u[0] == "const" and u[1] in (True, False):
+                        continue          # the constant contradicts or trivially agrees with the guard
+                    neg = False
+                    while u[0] == "un" and u[1] == "Not":
+                        u = strip_refs(u[2])
+                        neg = not neg
+                    out.append((u, (not tr) if neg else tr))
+                    work.append((u, (not tr) if neg else tr, dp + 1))
+        return out
+
     def edge_label(self, s, vals):
         """human label of a guard edge"""
         term = self.switch_term(s)
